@@ -135,6 +135,15 @@ Proof.
   destruct (parse_blob_items _); constructor; reflexivity.
 Qed.
 
+Lemma parse_literal_bounded_good : forall max s, good wf_literal (parse_literal_bounded O max s).
+Proof.
+  intros max s. unfold parse_literal_bounded. pose proof (parse_literal_good s) as G.
+  destruct (parse_literal O s) as [l| | |]; inversion G as [l' Hw|]; subst; [|constructor].
+  destruct l; try (constructor; exact Hw).
+  - destruct (Nat.ltb max (length s0)); constructor; exact Hw.
+  - destruct (Nat.ltb max (length b)); constructor; exact Hw.
+Qed.
+
 (* ---------------------------------------------------------------- triple.ParseObject *)
 Lemma parse_object_good : forall s, good wf_object (parse_object O s).
 Proof.
